@@ -370,7 +370,9 @@ func (k *Checker) checkView(n *Node, st *raft.VerifState, x *nodeChk) {
 			want = m.entry(idx)
 		}
 		if want == nil {
-			k.report("C18", "lg.view", n, fmt.Sprintf("combined view has an entry at %d that no emitted write or unstable tail contains", idx), "lg.view.extra")
+			// under C03: the log as stable storage will hold it plus the tail still
+			// to be persisted has a hole at this index
+			k.report2("C18", "lg.view", "C03", "log.shape", n, fmt.Sprintf("combined view has an entry at %d that no emitted write or unstable tail contains (it will never be persisted: the stored log plus the tail still to be written is not contiguous)", idx), "lg.view.extra")
 			return
 		}
 		if want != e && (want.GetTerm() != e.GetTerm() || want.GetType() != e.GetType() || !bytes.Equal(want.GetData(), e.GetData())) {
@@ -394,7 +396,7 @@ func (k *Checker) noteEmitted(n *Node, snap *pb.Snapshot, ents []*pb.Entry) {
 	}
 	if len(ents) > 0 {
 		if ents[0].GetIndex() > x.emitted.last()+1 {
-			k.report("C18", "lg.emit_gap", n, fmt.Sprintf("write group starts at %d but earlier writes end at %d", ents[0].GetIndex(), x.emitted.last()), "")
+			k.report2("C18", "lg.emit_gap", "C03", "log.shape", n, fmt.Sprintf("write group starts at %d but earlier writes end at %d: the stored log would not be contiguous", ents[0].GetIndex(), x.emitted.last()), "")
 			return
 		}
 		x.emitted.append(ents)
